@@ -1,6 +1,7 @@
 // C06 — overflow is detected exactly and handled as the tag specifies
 // C07 — checked arithmetic is total (Total = true: invariant-only oracle over *all* operand values)
 #pragma once
+#include <set>
 #include "../core.h"
 
 #include <cnl/all.h>
@@ -68,7 +69,7 @@ void observe(Outcome& o, Obs& obs, F&& f)
         return;
     }
     obs.trapped = true;
-    o = tmp;
+    o.take_failure(tmp);
 }
 
 // compares the observation with the expectation; region: -1 below, 0 in range, +1 above
@@ -110,6 +111,42 @@ void judge(std::string const& prefix, int region, mpz_class const& expect_value,
 
 inline int region_of(mpz_class const& v, mpz_class const& lo, mpz_class const& hi) { return v < lo ? -1 : v > hi ? 1
                                                                                                                    : 0; }
+
+// sub-region of "an operand of a mixed-signedness operation is negative and the result type is unsigned", computed from the
+// operands alone: which operand is negative, where the exact result lies, whether the other operand is 0, and whether the
+// operation carried out on the operands *converted to the result type* (what the pinned code does before/without detection)
+// happens to deliver what the property demands (the exact value, or the bound under the saturated tag). The listed findings
+// name the cells that fail on the pinned tree; cells that hold there are not part of any finding.
+inline char const* mixed_negative_cell(bool lhs_negative, int region, bool other_zero, bool wrap_agrees)
+{
+    static std::set<std::string> pool;
+    std::string c = std::string("negative-operand-unsigned-result/") + (lhs_negative ? "lhs-negative/" : "rhs-negative/")
+                  + (region < 0 ? "exact-below" : region > 0 ? "exact-above" : "exact-in-range") + (wrap_agrees ? "/wrap-agrees" : "/wrap-differs")
+                  + (other_zero ? "/other-zero" : "");
+    return pool.insert(c).first->c_str();
+}
+// does op(a mod 2^N, b mod 2^N) mod 2^N equal the demanded result? op: 0 + 1 - 2 * 3 /; lo..hi: range of the unsigned result type
+inline bool wrap_agrees(int op, mpz_class const& za, mpz_class const& zb, mpz_class const& exact, int region, mpz_class const& lo, mpz_class const& hi, int tag_kind)
+{
+    mpz_class const m = hi + 1;
+    auto wrap = [&](mpz_class v) {
+        v %= m;
+        if (v < 0) v += m;
+        return v;
+    };
+    mpz_class wa = wrap(za), wb = wrap(zb), w;
+    switch (op) {
+    case 0: w = wrap(wa + wb); break;
+    case 1: w = wrap(wa - wb); break;
+    case 2: w = wrap(wa * wb); break;
+    default:
+        if (wb == 0) return false;
+        w = wa / wb;
+    }
+    if (region == 0) return w == exact;
+    if (tag_kind != 0) return false;
+    return w == (region < 0 ? lo : hi);
+}
 
 ////////////////////////////////////////////////////////////////////////////////
 // integer operands. Route 0: tagged custom_operator / cnl::convert; Route 1: overflow_integer
@@ -196,19 +233,23 @@ struct Int {
             if (bits_v<L> < bits_v<Res> && ((!is_signed_int_v<L> && a != 0) || (is_signed_int_v<L> && a == int_min<L>())))
                 cause = "minus-tested-in-operand-type";
         } else if constexpr (Op == 4) {
-            if (is_signed_int_v<Res> && za == -1 && zb == bits_v<Res> - 1) cause = "shl-minus-one-by-digits";
+            // (under the saturated tag the reported negative overflow saturates to lowest(), which is the exact result)
+            if (is_signed_int_v<Res> && za == -1 && zb == bits_v<Res> - 1 && tag_info<Tag>::kind != 0) cause = "shl-minus-one-by-digits";
             if (za == 0 && zb >= bits_v<Res>) cause = "zero-lhs-count-ge-width";
         } else if constexpr (Op <= 3) {
-            if (Op == 2 && is_signed_int_v<Res> && is_signed_int_v<R> && zb == -1 && za >= 0)
+            // (the predicate is only evaluated when the operand digits together exceed the result's)
+            if (Op == 2 && is_signed_int_v<Res> && is_signed_int_v<R> && zb == -1 && za >= 0
+                && (bits_v<L> - is_signed_int_v<L>) + (bits_v<R> - 1) > bits_v<Res> - 1)
                 cause = "nonnegative-times-minus-one";
             else if (mixed && res_unsigned && (za < 0 || zb < 0))
-                cause = "negative-operand-unsigned-result";
+                cause = mixed_negative_cell(za < 0, region, (za < 0 ? zb : za) == 0, wrap_agrees(Op, za, zb, exact, region, lo, hi, tag_info<Tag>::kind));
             else if (Op == 3 && mixed && is_signed_int_v<L> && bits_v<R> >= 32 && zb == zmax<R>() && za == zmin<Res>())
                 cause = "lowest-by-all-ones";  // rhs == -1 holds after conversion of -1 to unsigned
-            else if (Op == 1 && !mixed && is_signed_int_v<R> && bits_v<R> < bits_v<Res> && zb < 0)
-                cause = "rhs-narrower-than-result-negative";
+            else if (Op == 1 && !mixed && is_signed_int_v<R> && bits_v<R> < bits_v<Res> && bits_v<L> == bits_v<Res> && zb < 0 && za - zb > zmax<R>() && region == 0)
+                cause = "rhs-narrower-than-result-negative";  // the predicate compares lhs with max(Rhs) + rhs, not max(result) + rhs
         }
         std::string const prefix = std::string(opname(Op)) + ((mixed && Op <= 3) ? "/mixed/" : "/same/") + cause;
+        if (std::string(cause) != "none") o.region = prefix;
         Obs obs;
         observe(o, obs, [&] {
             auto r = cnl_expr<Op>(a, b);
@@ -342,11 +383,13 @@ struct Compound {
         char const* cause = "none";
         if (op <= 2) {
             using Res = decltype(a + b);
-            if (op == 2 && is_signed_int_v<Res> && is_signed_int_v<R> && zb == -1 && za >= 0)
+            if (op == 2 && is_signed_int_v<Res> && is_signed_int_v<R> && zb == -1 && za >= 0
+                && (bits_v<L> - is_signed_int_v<L>) + (bits_v<R> - 1) > bits_v<Res> - 1)
                 cause = "nonnegative-times-minus-one";
             else if (mixed && !is_signed_int_v<Res> && (za < 0 || zb < 0))
-                cause = "negative-operand-unsigned-result";
-            else if (op == 1 && !mixed && is_signed_int_v<R> && bits_v<R> < bits_v<Res> && zb < 0)
+                cause = mixed_negative_cell(za < 0, region_of(exact, zmin<Res>(), zmax<Res>()), (za < 0 ? zb : za) == 0,
+                                            wrap_agrees(op, za, zb, exact, region_of(exact, zmin<Res>(), zmax<Res>()), zmin<Res>(), zmax<Res>(), tag_info<Tag>::kind));
+            else if (op == 1 && !mixed && is_signed_int_v<R> && bits_v<R> < bits_v<Res> && bits_v<L> == bits_v<Res> && zb < 0 && za - zb > zmax<R>() && exact <= zmax<Res>())
                 cause = "rhs-narrower-than-result-negative";
         }
         // two stages, as "x = x op y converted back" says: the operator in the built-in result type, then the conversion to L
@@ -369,6 +412,7 @@ struct Compound {
             value = r2 > 0 ? hi : lo;
         }
         std::string const prefix = std::string("compound") + opname(op) + (mixed && op <= 2 ? "/mixed/" : "/same/") + cause;
+        if (std::string(cause) != "none") o.region = prefix;
         Obs obs;
         mpz_class returned;
         bool have_returned = false;
